@@ -1,6 +1,6 @@
 (* C07/Properties.v — the property theorems, nothing else.  Values of handles are read with
    aread_slot / aread_row on abs_state st (the values behind the addresses and capacities). *)
-From Verif Require Import Common.Base C07.Val C07.Model C07.Proofs.
+From Verif Require Import Common.Base C07.Val C07.Model C07.Proofs C07.Proofs2.
 From Coq Require Import Permutation.
 From Verif Require Import Generated.C07PdataMutators C07.Mutators.
 
@@ -56,6 +56,38 @@ Theorem independent : forall sc st o h, nth_error (s_hs st) h <> None -> ~ write
   row_of (fst (cstep sc st o)) h = row_of st h.
 Proof. exact frame_step. Qed.
 Print Assumptions independent.
+
+(* SEPARATION.  sep st: every address in the unfolding of the state (all handles, live entries and the
+   stale entries behind len alike) is positive, below the allocation pointer, and occurs ONCE: two positions
+   never denote the same Go object.  It holds in the empty state and is preserved by every step of every
+   program, for every schema, growth oracle and program annotation. *)
+Theorem sep_holds_initially : sep cstate0.
+Proof. exact sep_empty. Qed.
+Print Assumptions sep_holds_initially.
+Theorem sep_preserved : forall sc st o, sep st -> sep (fst (cstep sc st o)).
+Proof. exact sep_step. Qed.
+Print Assumptions sep_preserved.
+Theorem sep_invariant : forall sc p, sep (fst (run_c sc cstate0 p)).
+Proof. exact (fun sc p => sep_run sc p cstate0 sep_empty). Qed.
+Print Assumptions sep_invariant.
+Theorem no_address_twice : forall sc p, NoDup (all_ids (fst (run_c sc cstate0 p))).
+Proof. exact (fun sc p => sep_NoDup _ (sep_run sc p cstate0 sep_empty)). Qed.
+Print Assumptions no_address_twice.
+
+(* ... and this is what makes the tree-shaped update of the model THE heap update.  A Go store through a
+   pointer to the object with address a rewrites that object wherever it occurs in the unfolding
+   (waddr_state a f).  Under sep: it is exactly the update at the path (h, p, j) through which the
+   operation reached the object — which is what cstep performs — and every other handle is untouched. *)
+Theorem store_is_structural_update : forall st h p j r x s a f, sep st ->
+  row_of st h = Some r -> cget r p = Some x -> nth_error x j = Some s -> addr_of s = Some a ->
+  opt_bind (row_of st h) (fun r => cupd r p (on_slot j f)) = row_of (waddr_state a f st) h.
+Proof. exact store_is_update. Qed.
+Print Assumptions store_is_structural_update.
+Theorem store_touches_no_other_handle : forall st h p j r x s a f, sep st ->
+  row_of st h = Some r -> cget r p = Some x -> nth_error x j = Some s -> addr_of s = Some a ->
+  forall h' r', h' <> h -> row_of st h' = Some r' -> row_of (waddr_state a f st) h' = Some r'.
+Proof. exact store_is_local. Qed.
+Print Assumptions store_touches_no_other_handle.
 
 (* MOVE transfers the content and leaves the source empty (vmoved s: nil slice / empty value / zero) *)
 Theorem move_empties_source : forall sc st h1 p1 j1 h2 p2 j2 st',
